@@ -9,10 +9,10 @@ from architecture_simulator.uarch.toy.SvgVisValues import SvgVisValues
 from architecture_simulator.util.fixedint_12 import UInt12
 
 
-def make_toy(words, data=None, accu=0):
+def make_toy(words, data=None, accu=0, size=None):
     """State as the assembler leaves it for a program whose instruction words are `words` (may include words that
     cannot be written in assembly) plus `data` cells {address: value}."""
-    sim = ToySimulation()
+    sim = ToySimulation() if size is None else ToySimulation(unified_memory_size=size)
     st = sim.state
     if data:
         for a, v in data.items():
